@@ -13,6 +13,11 @@ import (
 
 const AllMsgTypes = "ALL"
 
+// AcceptedMsgTypes is the pseudo message type of the outgoing handlers which are called for a message
+// of any type once every other outgoing handler has accepted it, right before it is queued for sending
+// (their result is ignored). No real message type can take this value: it contains the field delimiter.
+const AcceptedMsgTypes = "ACCEPTED\x01"
+
 // SendingMessage provides a basic method for sending messages.
 type SendingMessage interface {
 	HeaderBuilder() messages.HeaderBuilder
@@ -105,6 +110,12 @@ func (h *DefaultHandler) send(msg SendingMessage) error {
 	if err != nil {
 		return err
 	}
+
+	h.outgoingHandlers.Range(AcceptedMsgTypes, func(handle OutgoingHandlerFunc) bool {
+		handle(msg)
+
+		return true
+	})
 
 	return h.sendRaw(data)
 }
